@@ -6,6 +6,8 @@
   runs the same definitions); on the implementation it is checked by the harness under `recover`.
 -/
 import GoSecs.Lemmas.Framing
+import GoSecs.Lemmas.HsmsGen
+import GoSecs.Lemmas.FramingGen
 import GoSecs.Gen.Consts
 import GoSecs.Gen.Funcs
 
@@ -29,6 +31,55 @@ theorem isValidSType_gen_table : ∀ n : Nat, n < 256 → Gen.hsms_IsValidSType 
 
 theorem isValidSType_gen (b : UInt8) : Gen.hsms_IsValidSType (b.toNat : Int) = definedSType b.toNat :=
   isValidSType_gen_table b.toNat (by have := b.toNat_lt; omega)
+
+/-- What a decoded frame's header is read as (regenerated from hsms/data_msg.go, hsms/control_msg.go): the
+    accessors applied to ANY ten header bytes give the model's fields — there is no header for which the
+    code's view and the model's view of a received frame differ. -/
+theorem decodedHeader_gen (m : DataMsg) (c : ControlMsg) :
+    Gen.hsms_DataMessage_SessionID m.toGen = (m.hdr.sessionID : Int) ∧
+    Gen.hsms_DataMessage_Stream m.toGen = (m.hdr.stream.toNat : Int) ∧
+    Gen.hsms_DataMessage_Function m.toGen = (m.hdr.function.toNat : Int) ∧
+    Gen.hsms_DataMessage_WaitBit m.toGen = m.hdr.wbit ∧
+    Gen.hsms_DataMessage_ID m.toGen = (idOfSys m.hdr.sys : Int) ∧
+    Gen.hsms_ControlMessage_Type c.toGen = (c.type : Int) ∧
+    Gen.hsms_ControlMessage_ID c.toGen = (idOfSys c.hdr.sys : Int) :=
+  ⟨dataSessionID_gen m, dataStream_gen m, dataFunction_gen m, dataWaitBit_gen m, dataID_gen m, controlType_gen c,
+   controlID_gen c⟩
+
+/-- `NewRejectReqRaw` (what `sendReject` answers an undefined SType / unsupported PType with) packs the echoed
+    byte, the reason and the system bytes as the model's `rejectFor` assumes. -/
+theorem newRejectReqRaw_gen (sid : Nat) (p st : UInt8) (s : Sys) (reason : UInt8) :
+    Gen.hsms_NewRejectReqRaw (sid : Int) (p.toNat : Int) (st.toNat : Int) s.toBytes (reason.toNat : Int) =
+      (newRejectReqRaw sid p st s reason).toGen :=
+  Hsms.newRejectReqRaw_gen sid p st s reason
+
+/-- **`readFrame`'s length gate, regenerated from hsmsss/transport_recv.go** (its statements from
+    `msgLen := binary.BigEndian.Uint32(lenBuf[:])` to before `allocFrame`): `msgLen < 10` and
+    `msgLen > secs2.MaxByteSize` are refused, anything else goes on to the allocation — the model's `lengthGate` at
+    the cap, for every four prefix bytes; and the model's receive step applies exactly this gate when the prefix
+    completes, before it counts any allocation. -/
+theorem lengthGate_gen (a b c d : UInt8) :
+    Gen.hsmsss_transport_readFrame_lengthGate [a, b, c, d] = gateOut (lengthGate maxMsgLen (beVal [a, b, c, d])) :=
+  Framing.lengthGate_gen a b c d
+
+theorem stepByte_gate (cap : Nat) (s : RState) (b : UInt8) (hd : s.dropped = none) (hl : s.len = none)
+    (h4 : ¬ s.got + 1 < 4) :
+    stepByte cap s b =
+      (match lengthGate cap (beVal (b :: s.rbuf).reverse) with
+       | .error d => { s with rbuf := b :: s.rbuf, got := s.got + 1, started := true, idle := 0, dropped := some d }
+       | .ok L => { s with rbuf := b :: s.rbuf, got := s.got + 1, started := true, idle := 0, len := some L,
+                           alloc := s.alloc + L }) :=
+  Framing.stepByte_gate cap s b hd hl h4
+
+/-- **The length gate of `DecodeHSMSMessage`, regenerated from hsms/decode.go** is the model's `frameGuard`
+    (see Props/C03 `decodeGuards_gen`), for every byte string, with no slice out of range. -/
+theorem decodeGuards_gen (data : Bytes) :
+    Gen.hsms_DecodeHSMSMessage_guards data =
+      some (match frameGuard data with
+        | .error e => .error (false, some e.goName)
+        | .ok owned => .ok (((beVal (data.take 4) : Nat) : Int), owned)) ∧
+    decodeHSMSMessage data = (match frameGuard data with | .error e => .error e | .ok owned => decodeOwnedFrame owned) :=
+  ⟨Hsms.decodeGuards_gen data, decodeHSMSMessage_guard data⟩
 
 set_option maxRecDepth 8192 in
 /-- `decodeOwnedFrame`'s explicit `case` list (data + eight control STypes) is the same set. -/
